@@ -366,6 +366,31 @@ def after_history(srv, hs, ctx, index, kept=()):
 
 PARALLEL = 4         # histories of the second pass run on that many servers at a time (each has its own PRNG stream and result)
 
+def ipv6_part(res, base):
+    """the same server on an IPv6 address: its clients have addresses like `::1`, which look different wherever a peer address is printed,
+    parsed or compared.  A few valid requests, each must be answered; then the capacity probe"""
+    try:
+        t = socket.socket(socket.AF_INET6); t.bind(('::1', 0)); t.close()
+    except OSError as e:
+        res.notes.append(f'no IPv6 loopback here ({e}): the IPv6 server was not run'); return
+    reqs = [VALID, b'GET /no-such-file.txt HTTP/1.1\r\nHost: x\r\n\r\n', b'GET /f.txt HTTP/1.1\r\nHost: [::1]\r\nRange: bytes=1-3\r\n\r\n', b'GET x HTTP/1.1\r\n\r\n',
+            b'POST /form-url-encoded-enctype-post-method HTTP/1.1\r\nHost: x\r\nContent-Type: application/x-www-form-urlencoded\r\nContent-Length: 3\r\n\r\na=1', VALID]
+    try:
+        with RB.Server(base, threads=2, ip='::1', capture_stdout=False) as srv:
+            for r in reqs:
+                res.evaluations += 1; res.count('connection over IPv6')
+                err = 'the connection was closed without an answer'
+                try: a = srv.request(r, timeout=10)
+                except Exception as e: a = None; err = repr(e)     # noqa
+                if not a or (r is VALID and (b' 200 ' not in a[:16] or not a.endswith(b'hello'))):
+                    res.fail('unanswered-in-history:ipv6', {'mode': 'socket-ipv6', 'request': r[:80].decode('latin1')}, (a.decode('latin1') if a else err)[:160], None,
+                             'C06: a valid request from a client with an IPv6 address was not answered correctly by the server listening on ::1')
+                    break
+            if not srv.alive():
+                res.fail('server-terminated:ipv6', {'mode': 'socket-ipv6'}, srv.status, None, 'C06: the server listening on ::1 terminated')
+    except RB.ServerError as e:
+        res.fail('server-start:ipv6', {'mode': 'socket-ipv6'}, str(e)[:300], None, 'C06: the server does not start on --ip=::1')
+
 def run_part(res, rng, tier, only=None):
     ok, out = RB.build()
     if not ok:
@@ -373,6 +398,7 @@ def run_part(res, rng, tier, only=None):
     base = tempfile.mkdtemp(prefix='rwsc06-')
     try:
         big_sha = G.write_docroot(base)
+        if only is None: ipv6_part(res, base)
         hss = histories(rng, tier) if only is None else only
         have_prlimit = G.prlimit_wrap(20) is not None
         if not have_prlimit: res.notes.append('prlimit not found: the histories with a descriptor limit (accept() failing) were not run')
